@@ -10,7 +10,7 @@ from collections import namedtuple
 from ural.patterns import DOMAIN_TEMPLATE
 from ural.utils import SplitResult, safe_urlsplit, pathsplit
 
-TWITTER_DOMAINS_RE = re.compile(r"(?:twitter|x)\.com", re.I)
+TWITTER_DOMAINS_RE = re.compile(r"(?:^|\.)(?:twitter|x)\.com$", re.I)
 TWITTER_URL_RE = re.compile(DOMAIN_TEMPLATE % r"(?:[^.]+\.)*(?:twitter|x)\.com", re.I)
 TWITTER_FRAGMENT_ROUTING_RE = re.compile(r"^!/?")
 TWITTER_SCREEN_NAME_BLACKLIST = {
@@ -40,10 +40,16 @@ def is_twitter_url(url):
         bool: Whether given url is from Youtube.
 
     """
-    if isinstance(url, SplitResult):
-        return bool(re.search(TWITTER_DOMAINS_RE, url.hostname))
+    # NOTE: only the hostname decides, whatever the form the url is given in
+    try:
+        hostname = safe_urlsplit(url).hostname
+    except ValueError:
+        return False
 
-    return bool(re.match(TWITTER_URL_RE, url))
+    if not hostname:
+        return False
+
+    return bool(re.search(TWITTER_DOMAINS_RE, hostname))
 
 
 def normalize_screen_name(username):
